@@ -952,6 +952,49 @@ def c19a(chk, rows):
             rel = implied_strict_less(f, nu[0][0], {"k": "copy", "place": {"l": 3, "p": []}})
             ok = any(r[1] == "strict" for r in rel)
         chk.ob("C19.a", "get_axis/index-strictly-below-axis-length", ok, f.loc(), "the view is constructed only where `index < shape[axis]` is implied (dominating comparisons on the position argument: %s)" % (rel or "none"))
+    # Array::get / get_mut: the element is read at the position flat_index() returned, and flat_index() is asked only for an index of the
+    # array's own dimensionality (any other route to `self.data` - a shortcut for one-element indices, say - answers wrong-length indices)
+    FI = ARR + "shape::strides::Strides::flat_index"
+    for nm in ("get", "get_mut"):
+        h = chk.fn(ARR + "Array::<T>::" + nm)
+        if h is None:
+            continue
+        unit = [h] + prog.closures_of(h.path)
+        fi = an.calls(h, FI)
+        reads = []
+        for u in unit:
+            for b, t in u.calls():
+                p_ = t["callee"].get("path") or ""
+                if p_ in ("core::slice::<impl [T]>::get", "core::slice::<impl [T]>::get_mut", "core::slice::<impl [T]>::get_unchecked", "core::slice::<impl [T]>::get_unchecked_mut",
+                          "core::ops::Index::index", "core::ops::IndexMut::index_mut", "core::slice::<impl [T]>::first", "core::slice::<impl [T]>::last",
+                          "core::slice::<impl [T]>::first_mut", "core::slice::<impl [T]>::last_mut", "core::slice::<impl [T]>::iter", "core::slice::<impl [T]>::iter_mut"):
+                    a0 = (t["callee"].get("args") or [""])[0]
+                    if a0 in ("usize", "[usize]"):
+                        continue
+                    reads.append((u, b))
+        ok = False
+        why = "expected one flat_index call and one read of the data, found %d / %d" % (len(fi), len(reads))
+        if len(fi) == 1 and len(reads) == 1:
+            fb = fi[0][0]
+            u, rb = reads[0]
+            # the read happens in flat_index's continuation: in a closure handed to a combinator on its result, or in a block the call dominates
+            after = (u is not h) or (h.dominates(fb, rb) and fb != rb)
+            if u is not h:
+                mk = [b for b, i, p, rv, s_ in h.assigns() if rv["k"] == "aggregate" and rv.get("akind") == "closure" and rv.get("closure") == u.path]
+                after = bool(mk) and all(h.dominates(fb, b) for b in mk)
+            dim = False
+            for sb, st in h.switches():
+                s_ = an.switch_subject(h, sb)
+                d_ = h.single_def(s_["root"]) if s_["kind"] == "value" and s_["root"] is not None else None
+                if d_ and d_[0] == "assign" and d_[3]["k"] == "binop" and d_[3]["op"] in ("Eq", "Ne"):
+                    ds_ = [h.single_def(h.copy_root(op_local(d_[3][x]))) if op_local(d_[3][x]) is not None else None for x in ("l", "r")]
+                    nms = sorted(callee_name(x[2]["callee"]).split("::")[-1] if x and x[0] == "call" else ("len" if x and x[0] == "assign" and x[3]["k"] in ("len", "unop") else "?") for x in ds_)
+                    if nms == ["dimensions", "len"]:
+                        eq = st["otherwise"] if d_[3]["op"] == "Eq" else an.edge_target(st, 0)
+                        dim = dim or an.dominated_by_edge(h, sb, eq, fb)
+            ok = after and dim
+            why = "data read in the continuation of flat_index=%s, flat_index under `index.len() == dimensions()`=%s" % (after, dim)
+        chk.ob("C19.a", "Array::%s/element-read-only-at-flat_index(index)-of-a-full-length-index" % nm, ok, h.loc(), why)
     g = chk.fn(ARR + "shape::strides::Strides::flat_index")
     if g is not None:
         import iters as IT
@@ -1376,5 +1419,8 @@ def check_C19(chk):
     rows, contracts = load_tables(chk.prog)
     c19a(chk, rows)
     c19bcd(chk, rows)
+    # shared clause: `summing along an axis equals adding those views` is the shape of Array::sum decided for C04.d
+    import rules_num as RN_
+    chk.borrow(lambda: RN_.c04d(chk), "C19.e", 4)
     for r, n in (("C19.a", 8), ("C19.b", 5), ("C19.c", 6), ("C19.d", 4)):
         chk.floor(r, n)
